@@ -42,6 +42,13 @@ def gen(rng, i):
         loss = ts.loss_table(rng, n, K, hi if active else 1)
         ctabs.append(ts.saving_from_loss(loss, n))
     ptabs = [ts.saving_from_loss(ts.loss_table(rng, n, K, rng.choice([1, 2, hi + 3])), n) for _ in range(p)]
+    if i % 7 == 5:
+        # one column with savings six orders of magnitude above the others (still exact integers): whether a SMALL column belongs to the
+        # affected set is decided by its own saving against its own penalty, not relative to the total
+        g = rng.randrange(p)
+        ctabs[g] = [[v * 1000000 for v in r] for r in ctabs[g]]
+        ptabs[g] = [[v * 1000000 for v in r] for r in ptabs[g]]
+        pattern = pattern + "+giant"
     npv = rng.choice([1, 1, 2, 3])                       # parameters per variable of the collective saving (enters the sparse penalty)
     B2 = rng.choice([1, 3, 5, 9, 15])                    # 2 * (sparse per-component penalty) : odd => half-integer penalty
     bp = [rng.randint(0, 6) for _ in range(p)]
